@@ -12,6 +12,10 @@ G: every program is exported with its complete branch table (live and probabilit
    mid_circuit_meas_freqs, applied_gates, generate_applied_gates; probability-0 and wrong-length strings must raise;
    sampled modes (n_shots, save_mid_circuit_meas on/off, desired result, one shot + statevector) within 6-sigma bands
    of the exact values with support inside the exact support.
+W: "wide register" families (spec/C10Wide.tla, M = 64): product circuits of 1-2 qubit blocks on 8-10 qubits with 2-4 MEASURE
+   gates, and 3 qubits with 12 MEASURE gates, i.e. MORE THAN TEN key positions; TLC gives the exact block distributions
+   (product lemma checked) with pairwise different marginals on all key positions; every bit position of all_frequencies /
+   mid_circuit_meas_freqs / (post-selected) frequencies is compared with its own marginal, block joints and support included.
 """
 import copy
 import math
@@ -597,6 +601,220 @@ def mode_rows(chk, rows, pgs, rng):
 
 
 # ------------------------------------------------------------------------------------------------------------
+# wide registers: more than ten key positions (spec/C10Wide.tla, product circuits, M = 64)
+# ------------------------------------------------------------------------------------------------------------
+MW = 64
+WIDE_CFG = 'CONSTANTS M = 64\nFamily = "%s"\nExport = TRUE\nINIT Init\nNEXT Next\nINVARIANT WellFormedLayout\nINVARIANT Distinct\nINVARIANT CondTotal\n'
+
+
+def prepare_wide(w):
+    w["_marg"] = [to_complex(e, MW).real for e in w["marg"]]
+    w["_blocks"] = [(list(b["pos"]), {tuple(e["bits"]): to_complex(e["p"], MW).real for e in b["dist"]}) for b in w["blocks"]]
+    w["_cond"] = {}
+    for c in w["cond"]:
+        p = to_complex(c["p"], MW).real
+        w["_cond"]["".join(str(x) for x in c["d"])] = (p, [to_complex(e, MW).real / p for e in c["j1"]])
+    return w
+
+
+def strip_wide(w):
+    return {k: v for k, v in w.items() if not k.startswith("_")}
+
+
+def wide_circuit(w):
+    from tangelo.linq import Circuit, Gate
+    gs = [Gate("MEASURE", g["t"][0]) if g["name"] == "MEASURE" else json_to_gate(g, MW) for g in w["gates"]]
+    return Circuit(gs, n_qubits=w["n"])
+
+
+def pos_band(f, p, shots):
+    if p < 1e-12:
+        return f == 0.0
+    if p > 1 - 1e-12:
+        return abs(f - 1.0) < 1e-12
+    return abs(f - p) <= 6 * math.sqrt(p * (1 - p) / shots) + 1.5 / shots
+
+
+def position_marginals(freqs, length, exp, shots, what, tol=None):
+    """every key has the right length and every bit POSITION has its own exact marginal."""
+    for k in freqs:
+        if len(k) != length or set(k) - {"0", "1"}:
+            return "%s: malformed key %r (expected %d bits)" % (what, k, length)
+    tot = sum(freqs.values())
+    if abs(tot - 1) > 1e-9:
+        return "%s sums to %r" % (what, tot)
+    for pos in range(length):
+        f = sum(v for k, v in freqs.items() if k[pos] == "1")
+        ok = abs(f - exp[pos]) <= tol if tol is not None else pos_band(f, exp[pos], shots)
+        if not ok:
+            return "%s: P(bit %d = 1) = %.4f, exact %.6f (n=%d)" % (what, pos, f, exp[pos], shots)
+    return None
+
+
+def joint_blocks(freqs, blocks, shots, what):
+    """support inside the exact support and every block's joint distribution within its band."""
+    for pos, dist in blocks:
+        got = {}
+        for k, v in freqs.items():
+            sub = tuple(int(k[i]) for i in pos)
+            got[sub] = got.get(sub, 0.0) + v
+        for sub, f in got.items():
+            if dist.get(sub, 0.0) < 1e-12:
+                return "%s: bits %s at key positions %s lie outside the exact support" % (what, sub, pos)
+        for sub, pr in dist.items():
+            if not pos_band(got.get(sub, 0.0), pr, shots):
+                return "%s: key positions %s = %s has frequency %.4f, exact %.6f (n=%d)" % (what, pos, sub, got.get(sub, 0.0), pr, shots)
+    return None
+
+
+def permute_keys(freqs, perm):
+    out = {}
+    for k, v in freqs.items():
+        k2 = "".join(k[j] for j in perm)
+        out[k2] = out.get(k2, 0.0) + v
+    return out
+
+
+def wide_run(w, mode, shots, seed, record=None):
+    """One call on a wide circuit. Returns list of (aspect, detail). record (dict) receives the observed dictionaries."""
+    n, nm = w["n"], w["nm"]
+    K = n + nm
+    circ = wide_circuit(w)
+    d = max(w["_cond"], key=lambda x: (w["_cond"][x][0], x))
+    pd, cmarg = w["_cond"][d]
+    fails = []
+    np.random.seed(seed)
+    try:
+        with warnings.catch_warnings():
+            warnings.simplefilter("ignore")
+            if mode == "exact":
+                sim = backend()
+                f, sv = sim.simulate(circ, desired_meas_result=d, return_statevector=True)
+                got = circ.success_probabilities.get(d)
+                if got is None or abs(got - pd) > TOL:
+                    fails.append(("probability", "success_probabilities[%r] = %r, exact %.12g" % (d, got, pd)))
+                bad = position_marginals(f, n, cmarg, 1, "frequencies", tol=TOL) or \
+                    position_marginals(sim.all_frequencies, K, [float(x) for x in d] + cmarg, 1, "all_frequencies", tol=TOL) or \
+                    cmp_dist(sim.mid_circuit_meas_freqs, {d: 1.0})
+                if bad:
+                    fails.append(("frequencies", bad))
+                dead = [x for x in ("".join("1" if (i == 3) != (c == "1") else "0" for i, c in enumerate(d)),) if x not in w["_cond"]]
+                for x in dead:      # W2: flipping the second outcome of qubit 0 gives a probability-zero string
+                    try:
+                        backend().simulate(wide_circuit(w), desired_meas_result=x)
+                        fails.append(("zero-prob-accepted", "desired_meas_result=%r accepted" % x))
+                    except Exception:
+                        pass
+                return fails
+            if mode in ("save", "desired"):
+                sim = backend(n_shots=shots)
+                kw = {"save_mid_circuit_meas": True} if mode == "save" else {"desired_meas_result": d}
+                f, _ = sim.simulate(circ, **kw)
+                allf, midf = dict(sim.all_frequencies), dict(sim.mid_circuit_meas_freqs)
+                if record is not None:
+                    record.update(allf=allf, midf=midf, f=dict(f))
+                conditioned = mode == "desired" and all(k.startswith(d) for k in allf)
+                if conditioned:
+                    bad = position_marginals(allf, K, [float(x) for x in d] + cmarg, shots, "all_frequencies") or cmp_dist(midf, {d: 1.0})
+                else:
+                    bad = position_marginals(allf, K, w["_marg"], shots, "all_frequencies") or \
+                        joint_blocks(allf, w["_blocks"], shots, "all_frequencies") or \
+                        position_marginals(midf, nm, w["_marg"][:nm], shots, "mid_circuit_meas_freqs") or \
+                        band(midf, {x: v[0] for x, v in w["_cond"].items()}, shots, "mid_circuit_meas_freqs")
+                if bad:
+                    fails.append(("joint", bad))
+                if mode == "save":
+                    bad = position_marginals(f, n, w["_marg"][nm:], shots, "frequencies")
+                else:
+                    n_succ = shots if conditioned else int(round(shots * sum(v for k, v in allf.items() if k.startswith(d))))
+                    if n_succ == 0:
+                        return fails + [("inconclusive", "no success")]
+                    bad = position_marginals(f, n, cmarg, n_succ, "post-selected frequencies")
+                if bad:
+                    fails.append(("frequencies", bad))
+                return fails
+            if mode == "desired+sv":
+                sim = backend(n_shots=shots)
+                f, sv = sim.simulate(circ, desired_meas_result=d, return_statevector=True)
+                allf = dict(sim.all_frequencies)
+                bad = position_marginals(f, n, cmarg, shots, "frequencies") or \
+                    position_marginals(allf, K, [float(x) for x in d] + cmarg, shots, "all_frequencies") or cmp_dist(sim.mid_circuit_meas_freqs, {d: 1.0})
+                if bad:
+                    fails.append(("frequencies", bad))
+                svm = [float(sum(abs(a) ** 2 for i, a in enumerate(np.array(sv).ravel()) if (i >> (n - 1 - q)) & 1)) for q in range(n)]
+                if max(abs(a - b) for a, b in zip(svm, cmarg)) > TOL:
+                    fails.append(("statevector", "qubit marginals of the returned state %s differ from the exact branch %s" % (svm, cmarg)))
+                return fails
+            if mode == "oneshot":
+                sim = backend(n_shots=1)
+                f, sv = sim.simulate(circ, save_mid_circuit_meas=True, return_statevector=True)
+                bad = None
+                for k in sim.all_frequencies:
+                    if len(k) != K:
+                        bad = "key %r has not %d bits" % (k, K)
+                    for pos, dist in w["_blocks"]:
+                        if len(k) == K and dist.get(tuple(int(k[i]) for i in pos), 0.0) < 1e-12:
+                            bad = "one-shot key %r outside the exact support at positions %s" % (k, pos)
+                mk = list(sim.mid_circuit_meas_freqs)
+                if not bad and (len(mk) != 1 or mk[0] not in w["_cond"]):
+                    bad = "mid_circuit_meas_freqs %s is not one live outcome string" % mk
+                if not bad:
+                    cm = w["_cond"][mk[0]][1]
+                    svm = [float(sum(abs(a) ** 2 for i, a in enumerate(np.array(sv).ravel()) if (i >> (n - 1 - q)) & 1)) for q in range(n)]
+                    if max(abs(a - b) for a, b in zip(svm, cm)) > TOL:
+                        bad = "qubit marginals of the returned state differ from the exact branch %r" % mk[0]
+                return [("oneshot", bad)] if bad else []
+            if mode == "nosave":
+                sim = backend(n_shots=shots)
+                f, _ = sim.simulate(circ)
+                bad = position_marginals(f, n, w["_marg"][nm:], shots, "frequencies")
+                return [("frequencies", bad)] if bad else []
+    except Exception as e:
+        return fails + [("exception", "%s: %s" % (type(e).__name__, str(e)[:300]))]
+    raise ValueError(mode)
+
+
+def wide_controls(w, rec, shots):
+    """Binding control on the recorded data: permuting key positions (the string order '0','1','10','11',...,'2',... and a
+    transposition of the last two positions) must be noticed by the position checks."""
+    K = w["n"] + w["nm"]
+    perms = [sorted(range(K), key=str), list(range(K - 2)) + [K - 1, K - 2], [1, 0] + list(range(2, K))]
+    noticed = 0
+    for perm in perms:
+        pf = permute_keys(rec["allf"], perm)
+        if position_marginals(pf, K, w["_marg"], shots, "x") or joint_blocks(pf, w["_blocks"], shots, "x"):
+            noticed += 1
+    if noticed != len(perms):
+        raise tlc.TLCError("binding failure: a permutation of key positions went unnoticed on a wide register (%d/%d)" % (noticed, len(perms)))
+    return len(perms)
+
+
+def replay_wide(chk, wds, rng, quick):
+    shots = 3000
+    n_ctl = 0
+    for w in wds:
+        fam = w["family"]
+        modes = ["exact", "desired" if fam == "W1" else "save", "desired+sv", "oneshot", "nosave"]
+        if not quick:
+            modes += ["save" if fam == "W1" else "desired"]
+        for mode in modes:
+            seed = rng.randrange(2 ** 31)
+            rec = {}
+            ns = 1 if mode in ("exact", "oneshot") else (shots if mode in ("save", "desired", "nosave") else 2000)
+            fails = wide_run(w, mode, ns, seed, rec)
+            chk.add_traces(1, "wide_" + mode)
+            for aspect, detail in fails:
+                if aspect == "inconclusive":
+                    chk.inconclusive += 1
+                    continue
+                viol(chk, "wide:%s:%s:%s" % (fam, mode, aspect), "[%d qubits, %d MEASURE gates, %d keys, n_shots=%s] %s" % (w["n"], w["nm"], w["n"] + w["nm"], ns, detail),
+                     {"kind": "wide", "w": strip_wide(w), "mode": mode, "shots": ns, "seed": seed})
+            if rec.get("allf") and not fails and any(not k.startswith(max(w["_cond"], key=lambda x: (w["_cond"][x][0], x))) for k in rec["allf"]):
+                n_ctl += wide_controls(w, rec, ns)
+    chk.part("wide_registers", circuits=len(wds), keys=sorted({w["n"] + w["nm"] for w in wds}), permutation_controls_noticed=n_ctl)
+
+
+# ------------------------------------------------------------------------------------------------------------
 def density_selfcheck(chk):
     r = tlc.run("DensityCheck", "CONSTANT M = 8\nINIT Init\nNEXT Next\n", "c10/density_check", timeout=1800)
     res = r.tuples("LC")
@@ -674,7 +892,12 @@ def run(chk):
         jobs.append(dict(module="C10Measure", cfg=cfg(s["N"], s["L"], s["MM"], s["mm"], s["nest"], s["names"]),
                          name="c10/sim%d" % i, workers=1, simulate="num=%d" % s["num"], depth=80, seed=chk.seed + 31 * i + 7,
                          heap="4g", timeout=7200))
-    results = run_jobs(jobs, ["PG", "MR"], ["LC"], "c10_" + chk.tier + "_%d" % chk.seed)
+    n_main = len(jobs)
+    for fam, num in (("W1", 10 if quick else 24), ("W2", 1 if quick else 4)):
+        jobs.append(dict(module="C10Wide", cfg=WIDE_CFG % fam, name="c10/wide_" + fam, workers=1, simulate="num=%d" % num, depth=20,
+                         seed=chk.seed + 5, coverage=True, timeout=3600))
+    results = run_jobs(jobs, ["PG", "MR", "WD"], ["LC"], "c10_" + chk.tier + "_%d" % chk.seed)
+    wide_res, results, jobs = results[n_main:], results[:n_main], jobs[:n_main]
     dres = results[0].tuples("LC")
     if len(dres) < 15 or any(t[1] is not True for t in dres):
         raise tlc.TLCError("Density.tla self-check failed: %s" % [t for t in dres if t[1] is not True])
@@ -732,6 +955,27 @@ def run(chk):
     if not rows:
         raise tlc.TLCError("mode table not exported")
     mode_rows(chk, rows[0][0], [p for recs in pgs_sim for p in recs], rng)
+    # ---- wide registers (more than ten key positions) ---------------------------------------------------
+    wds = []
+    wcov = {}
+    for r in wide_res:
+        if not r.ok or [t for t in r.tuples("LC") if t[1] is not True] or not r.tuples("LC"):
+            raise tlc.TLCError("C10Wide: invariant / product lemma violated in the specification itself: %s\n%s" % (r.violated, r.out[-2500:]))
+        chk.add_tlc(r, r.name.split("/")[1])
+        recs = [prepare_wide(w) for w in r.prints("WD")]
+        for a, c in r.coverage_counts().items():
+            wcov[a] = wcov.get(a, 0) + c[1]
+        if recs and recs[0]["family"] == "W1":
+            # distinct (qubits, measurements) shapes, the widest first; quick keeps the widest and one with 11 keys
+            by = {}
+            for w in recs:
+                by.setdefault((w["n"] + w["nm"], w["n"]), w)
+            order = sorted(by, reverse=True)
+            recs = [by[k] for k in order] if not quick else [by[order[0]]] + ([by[order[-1]]] if len(order) > 1 else [])
+        wds += recs
+    if not wds or any(not wcov.get(a) for a in ("AddS", "AddM", "AddB", "PickW2", "Finish")):
+        raise tlc.TLCError("vacuity: wide-register layouts not generated (%s)" % wcov)
+    replay_wide(chk, wds, rng, quick)
     negative_controls(chk, [p for recs in pgs_sim for p in recs])
     chk.part("programs", replayed=n_prog, with_cmeasure=sum(1 for p in all_pgs if p["_cm"]), nested=n_nested,
              nested_measure_before_outer_measure=n_splice,
@@ -753,8 +997,8 @@ def run(chk):
 
 def replay(chk, rec):
     case = rec["case"]
-    pg = prepare(case["pg"])
     kind = case["kind"]
+    pg = prepare(case["pg"]) if "pg" in case else None
     style = case.get("style", "dict")
     if kind in ("exact", "exact-zero-init"):
         br = [b for b in pg["br"] if b["_outs"] == case["outs"]][0]
@@ -777,6 +1021,15 @@ def replay(chk, rec):
         fails = gen_applied(pg, br, style)
     elif kind == "sampled":
         fails = sampled(pg, case["mode"], case["shots"], case["seed"], style, case.get("outs"))
+    elif kind == "wide":
+        w = prepare_wide(case["w"])
+        fails = wide_run(w, case["mode"], case["shots"], case["seed"])
+        hit = False
+        for a, d in fails:
+            key = "wide:%s:%s:%s" % (w["family"], case["mode"], a)
+            hit = hit or key == rec["key"]
+            print("  FAIL" if key == rec["key"] else "  (other aspect)", key, "-", d)
+        return not hit
     elif kind == "mode":
         c2 = check.Check("C10", ["quick"])
         c2.known = []
